@@ -142,6 +142,17 @@ func ownerRevisions(f *lib.Flags, res *lib.Result) {
 		st := []string{fmt.Sprintf("module m { namespace \"urn:m\"; prefix m; include s; include t; revision 2019-01-01; %s }", v.inOwner), ut[1],
 			"submodule s { belongs-to m { prefix m; } include t; " + v.inS + " }", "submodule t { belongs-to m { prefix m; } " + v.inT + " }"}
 		id := fmt.Sprintf("older-revision-includes v=%d", vi)
+		// the same with the inner submodule reached ONLY through the outer one (the owner does not
+		// list t): definitions of t are used from the owner, from s and nothing else includes t
+		{
+			nn := []string{"m@2019-01-01.yang", "m@2021-06-01.yang", "s.yang", "t.yang"}
+			nt := []string{fmt.Sprintf("module m { namespace \"urn:m\"; prefix m; include s; revision 2019-01-01; %s }", v.inOwner), ut[1], st[2], st[3]}
+			cases = append(cases, rescorr.Case{Names: un, Texts: ut, Extra: map[string]string{"variant": "unsplit", "id": id + " nested-only"}},
+				rescorr.Case{Names: nn, Texts: nt, Extra: map[string]string{"variant": "split", "id": id + " nested-only", "latest": "m@2021-06-01", "subs": "s,t"}})
+			// and with a single revision
+			cases = append(cases, rescorr.Case{Names: un[:1], Texts: ut[:1], Extra: map[string]string{"variant": "unsplit", "id": id + " nested-only single"}},
+				rescorr.Case{Names: []string{nn[0], nn[2], nn[3]}, Texts: []string{nt[0], nt[2], nt[3]}, Extra: map[string]string{"variant": "split", "id": id + " nested-only single", "latest": "m@2019-01-01", "subs": "s,t"}})
+		}
 		for _, ord := range [][]int{{0, 1, 2, 3}, {1, 0, 3, 2}, {3, 2, 1, 0}} {
 			pn, pt := make([]string, 4), make([]string, 4)
 			for a, b := range ord {
